@@ -13,7 +13,7 @@
 """
 from .. import terms as T
 from ..terms import const
-from ..rules import P_, run, ret_paths, raise_paths, exc_name, bind_call_args, default_of
+from ..rules import P_, run, ret_paths, raise_paths, exc_name, bind_call_args, default_of, alternatives
 from ..loader import AnalysisError
 
 EXPLANATION = (
@@ -232,7 +232,8 @@ def classify_callable(t, FN):
         if name == FN:
             return 'propagate'
         s = T.show(name)
-        if name[0] == 'binop' and name[1] == '+' and name[2][0] == 'const' and 'nan' in str(name[2][1]):
+        alts = [v for v, _ in alternatives(name)]
+        if alts and all(v[0] == 'binop' and v[1] == '+' and v[2][0] == 'const' and 'nan' in str(v[2][1]) for v in alts):
             return 'ignore'
         return 'unknown:' + s
     return 'unknown:' + T.show(t)
@@ -255,7 +256,10 @@ def rule_nan_policy(ctx):
             k = classify_callable(p.value, FN)
             kinds.add(k)
             want = 'ignore' if skipna else 'propagate'
-            if k != want:
+            if k.startswith('unknown:'):
+                ctx.undecide('R4', '_get_func(skipna=%s) returns %s: neither a known NaN-ignoring nor a known NaN-propagating callable' % (skipna, k[8:120]))
+                ok = False
+            elif k != want:
                 ctx.violated('R4', fi, 'return %s [skipna=%s]' % (T.show(p.value)[:100], skipna),
                              'with skipna=%s _get_func must return a NaN-%s function, returns %s' % (skipna, 'ignoring' if skipna else 'propagating', k), node=p.node)
                 ok = False
@@ -315,6 +319,7 @@ def rule_nan_policy(ctx):
                 if x[0] == 'attr' and x[2] == 'kind' and x[1][0] == 'attr' and x[1][2] == 'dtype':
                     KIND_TS.add(x)
     table_bad = None
+    undecided_fill = None
     ntab = 0
     for fname, kind, want in (('all', 'b', True), ('any', 'b', False), ('all', 'f', True), ('any', 'f', False), ('ptp', 'f', 'nan'), ('ptp', 'i', 'nan')):
         env = {NAME_T: fname}
@@ -334,8 +339,10 @@ def rule_nan_policy(ctx):
             fv = fills[0][2][0]
             got = 'nan' if T.dotted(fv) in ('np.nan', 'nan') else val_eval(fv, env)
             ntab += 1
-            if got is UNKNOWN or got != want or (isinstance(want, bool) and not isinstance(got, bool)):
-                table_bad = table_bad or (p, fname, kind, 'it is filled with %s instead of %s' % ('an undecided value' if got is UNKNOWN else got, want))
+            if got is UNKNOWN:
+                undecided_fill = undecided_fill or (fname, kind, T.show(fv)[:100])
+            elif got != want or (isinstance(want, bool) and not isinstance(got, bool)):
+                table_bad = table_bad or (p, fname, kind, 'it is filled with %s instead of %s' % (got, want))
         if not live and masked_paths:
             table_bad = table_bad or (masked_paths[0], fname, kind, 'no returning path')
     if table_bad is not None:
@@ -345,6 +352,8 @@ def rule_nan_policy(ctx):
                      'the dtype of the masked result (np.ma returns the float64 constant np.ma.masked when a scalar result is fully masked); for %s with a result of kind %r %s'
                      % (fname, kind, what), node=p.node)
         okm = False
+    elif undecided_fill is not None:
+        ctx.undecide('R4', 'masked result of %s (dtype kind %r): the fill value %s cannot be evaluated' % undecided_fill)
     elif okm and nmask:
         ctx.holds('R4', '_MaskedArrayFunc: mask NaNs, np.ma function, masked results filled with NaN, all / any with the identity of the reduction (%d table entries)' % ntab)
     # _median_with_nan
